@@ -141,6 +141,8 @@ type vIdP struct {
 	onJWKS     func() (int, string, string, error)
 	hook       func(path string) // scheduler hook (C12)
 	ctxHook    func(ctx context.Context, path string)
+	// what the discovery document advertises as code_challenge_methods_supported (nil: S256 and plain; empty: field omitted)
+	discoveryMethods []string
 	// any other path of the provider (validate, profile endpoints of the non-OIDC providers)
 	onPath map[string]func(req *http.Request) (int, string, string, error)
 }
@@ -181,6 +183,17 @@ func (b *vFaultyBody) Read(p []byte) (int, error) {
 func (b *vFaultyBody) Close() error { return nil }
 
 const vIssuer2 = "https://idp2.example"
+
+func (i *vIdP) discoveryMethodsJSON() string {
+	if i.discoveryMethods == nil {
+		return `,"code_challenge_methods_supported":["S256","plain"]`
+	}
+	if len(i.discoveryMethods) == 0 {
+		return ""
+	}
+	b, _ := json.Marshal(i.discoveryMethods)
+	return `,"code_challenge_methods_supported":` + string(b)
+}
 
 func (i *vIdP) record(c vIdPCall) {
 	i.mu.Lock()
@@ -262,7 +275,7 @@ func (i *vIdP) RoundTrip(req *http.Request) (*http.Response, error) {
 		st, ct = 200, "application/json"
 		body = `{"issuer":"` + vIssuer + `","authorization_endpoint":"` + vIssuer + `/authorize","token_endpoint":"` + vIssuer +
 			`/token","jwks_uri":"` + vIssuer + `/jwks","userinfo_endpoint":"` + vIssuer + `/userinfo",` +
-			`"id_token_signing_alg_values_supported":["RS256","ES256"],"code_challenge_methods_supported":["S256","plain"]}`
+			`"id_token_signing_alg_values_supported":["RS256","ES256"]` + i.discoveryMethodsJSON() + `}`
 	case "/token":
 		if i.onToken != nil {
 			st, ct, body, err = i.onToken(form)
